@@ -33,6 +33,8 @@ def configs():
         'square-1': (lambda: crystal.Crystal(np.eye(2), [a([0., 0.])]), 0, 1.01, 1),
         'sc-1': (lambda: crystal.Crystal(np.eye(3), [a([0., 0., 0.])]), 0, 1.01, 1),
         'rect2-1': (lambda: crystal.Crystal(a([[1., 0.], [0., 1.25]]), [[a([0., 0.]), a([0.5, 0.5])]], noreduce=True), 0, 0.9, 1),
+        # three sites of one species in TWO Wyckoff sets (corner + the two edge centres), omega0 jumps between the sets
+        'sq3-1': (lambda: crystal.Crystal(np.eye(2), [a([0., 0.]), a([0.5, 0.]), a([0., 0.5])]), 0, 0.6, 1),
         'square-2': (lambda: crystal.Crystal(np.eye(2), [a([0., 0.])]), 0, 1.01, 2),
         'rect2-2': (lambda: crystal.Crystal(a([[1., 0.], [0., 1.25]]), [[a([0., 0.]), a([0.5, 0.5])]], noreduce=True), 0, 0.9, 2),
         'sc-2': (lambda: crystal.Crystal(np.eye(3), [a([0., 0., 0.])]), 0, 1.01, 2),
@@ -358,6 +360,45 @@ def gf_contract(cfg):
     return fn
 
 
+def gfcalc_history(cfg):
+    """GFcalculator(N): the calculator a VacancyMediated object ends up with for a requested mesh parameter must not depend on
+    whether an earlier GFcalculator(N) result was thrown away (concrete runs of the real Green-function calculator)"""
+    def fn(src=None):
+        import copy
+        calc = copy.deepcopy(get_calc(cfg))
+        calc.GFcalc = getattr(calc, 'GFcalc_real', calc.GFcalc)
+        name = 'gfcalc-history:' + cfg
+        info = {'inputs': {}, 'replayer': 'gfhistory', 'extra': {'cfg': cfg}}
+        N2 = int(getattr(calc, 'NGFmax', 4)) + 2
+        calc.GFcalculator(N2)                      # the caller discards the result
+        calc.GFcalc = calc.GFcalculator(N2)        # ... and asks again, installing what it gets
+        fresh = GFmod.GFCrystalcalc(calc.crys, calc.chem, calc.sitelist, calc.om0_jn, N2)
+        same_mesh = list(np.asarray(calc.GFcalc.kptgrid).ravel()) == list(np.asarray(fresh.kptgrid).ravel())
+        args = gf_inputs(calc, 1)
+        calc.GFcalc.SetRates(*args)
+        fresh.SetRates(*args)
+        same_val = all(np.allclose(a, b, rtol=1e-9, atol=1e-12) for a, b in zip(gf_state(calc.GFcalc, calc), gf_state(fresh, calc)))
+        # coarsening after use: answers obtained with the old mesh must not survive in the cache
+        c3 = copy.deepcopy(get_calc(cfg))
+        c3.GFcalc = getattr(c3, 'GFcalc_real', c3.GFcalc)
+        c3.clearcache()
+        xin = (np.zeros(len(c3.sitelist)), np.zeros(len(c3.sitelist)), 0.25 * np.arange(c3.thermo.Nstars), 1.0 + np.zeros(len(c3.om0_jn)),
+               1.0 + 0.125 * np.arange(len(c3.om1_jn)), 0.5 + np.zeros(len(c3.om2_jn)))
+        N0 = int(getattr(c3, 'NGFmax', 4))
+        c3.Lij(*xin)
+        c3.GFcalc = c3.GFcalculator(max(1, N0 - 2))
+        got = c3.Lij(*xin)
+        mk, chem_, cut_, nth_ = configs()[cfg]
+        cr = mk()
+        f3 = OnsagerCalc.VacancyMediated(cr, chem_, cr.sitelist(chem_), cr.jumpnetwork(chem_, cut_), nth_, max(1, N0 - 2))
+        want = f3.Lij(*xin)
+        coarse_ok = all(np.allclose(a_, b_, rtol=1e-12, atol=1e-14) for a_, b_ in zip(got, want))
+        return [('%s:coarser-mesh-after-use' % name, bool(coarse_ok), dict(info, sig='gfcalc-history:coarsen', witnessed=True)),
+                ('%s:mesh-of-the-requested-parameter' % name, bool(same_mesh), dict(info, sig='gfcalc-history:mesh', witnessed=True)),
+                ('%s:values-of-the-requested-parameter' % name, bool(same_mesh and same_val), dict(info, sig='gfcalc-history:values', witnessed=True))]
+    return fn
+
+
 def replay(rec):
     e = rec['extra']
     return harness.run_laws_concrete(scenario(e['cfg'], e['kind'], e['large']), rec)
@@ -379,6 +420,8 @@ def sections(tier):
                  [('square-1', 'square-2'), ('square-2', 'square-1'), ('rect2-1', 'rect2-2'), ('sc-1', 'sc-2')]):
         secs.append(S('regen:%s->%s' % (a, b), regen(a, b), budget_s=120 if tier == 'quick' else 1500, timeout_ms=10000 if tier == 'quick' else 20000,
                       replayer='regen', config=a, maxpaths=50))
+    for cfg in (['square-1'] if tier == 'quick' else ['square-1', 'rect2-1', 'sc-1']):
+        secs.append(S('gfcalc-history:' + cfg, gfcalc_history(cfg), budget_s=120, timeout_ms=10000, replayer='gfhistory', config=cfg, maxpaths=2))
     for cfg in (['rect2-1', 'square-1'] if tier == 'quick' else ['rect2-1', 'square-1', 'rumple2d-1', 'sc-1']):
         secs.append(S('gf-contract:' + cfg, gf_contract(cfg), budget_s=120, timeout_ms=10000, replayer='gfcontract', config=cfg, maxpaths=2))
     return secs
@@ -388,7 +431,8 @@ def main():
     import warnings
     warnings.simplefilter('ignore')
     if REPLAY:
-        run.replay_main('C14', {'hist': replay, 'regen': lambda rec: harness.run_laws_concrete(regen(rec['extra']['cfg_from'], rec['extra']['cfg_to']), rec),
+        run.replay_main('C14', {'hist': replay, 'gfhistory': lambda rec: harness.run_laws_concrete(lambda src: gfcalc_history(rec['extra']['cfg'])(src), rec),
+                                'regen': lambda rec: harness.run_laws_concrete(regen(rec['extra']['cfg_from'], rec['extra']['cfg_to']), rec),
                                 'gfcontract': lambda rec: harness.run_laws_concrete(lambda src: gf_contract(rec['extra']['cfg'])(src), rec)})
     V = OnsagerCalc.VacancyMediated
     chk = run.Check(
